@@ -77,6 +77,51 @@ var DirectedScenarios = []Directed{
 		s.Settle()
 		return s.Finish()
 	}},
+	{Name: "custom-events-across-queued-query-events", Prop: "C03", Run: func(seed uint64) *HistResult {
+		// t.q is held both plainly and with a query. A query event locks the
+		// resource; behind the lock wait a custom event, a second query event
+		// and two more custom events, so the second query event is taken from
+		// the middle of the work queue. Every custom event is delivered once,
+		// in order (the query events change nothing: the plain subscription
+		// stays current without events).
+		s := NewScript(HistCfg{Seed: seed, Pct: 0})
+		w := s.World()
+		w.AddQueryColl("t.q", []Val{P("i0"), P("i1"), P("i2"), P("i3")})
+		c := s.Connect("1.2.3")
+		s.Req(c, "subscribe.t.q", nil)
+		s.Settle()
+		s.Req(c, "subscribe.t.q?w=2", nil)
+		s.Settle()
+		same := func(d []Val) []Val { return d }
+		// every shape of the queue behind the lock: pre custom events, a query
+		// event, mid custom events, optionally another query event, post
+		// custom events
+		for pre := 0; pre <= 2; pre++ {
+			for mid := 0; mid <= 2; mid++ {
+				for post := 0; post <= 2; post++ {
+					w.MutateQuery("t.q", same)
+					s.Quiesce()
+					for i := 0; i < pre; i++ {
+						w.Custom("t.q", "custom")
+					}
+					w.MutateQuery("t.q", same)
+					for i := 0; i < mid; i++ {
+						w.Custom("t.q", "custom")
+					}
+					if (pre+mid+post)%2 == 1 {
+						w.MutateQuery("t.q", same)
+					}
+					for i := 0; i < post; i++ {
+						w.Custom("t.q", "custom")
+					}
+					s.Settle()
+					w.Custom("t.q", "custom")
+					s.Settle()
+				}
+			}
+		}
+		return s.Finish()
+	}},
 	{Name: "delete-with-error-child", Prop: "C09", Run: func(seed uint64) *HistResult {
 		s := NewScript(HistCfg{Seed: seed, Pct: 0, Metrics: true, GetOutcome: [4]int{100, 0, 0, 0}})
 		w := s.World()
